@@ -1,4 +1,5 @@
 """C01 — Promise → Future hand-off, exactly once, intact (DESIGN.md §3 C01)."""
+from vlib import apiprobe
 from vlib import common as C
 from vlib import conc
 
@@ -15,6 +16,7 @@ def run(res, tier):
         'the model allows stale pre-check loads; the FIBER backend never produces them (model behaviours ⊇ implementation behaviours)',
         'blocking is modelled through MutexEvent\'s mutex; wait queues / condition variable internals are the fiber scheduler\'s (C18)',
     ]
+    apiprobe.stage(res, 'C01', tier)  # every public form of the area still instantiates (vlib/apiprobe.py, harness/api_probe_*.cpp)
     conc.concurrent_check(
         res, 'C01', tier, 'c01.cpp', 'unique', RULES,
         quick_args=['--mode', 'dfs', '--pb', '2', '--wb', '1'],
@@ -25,4 +27,7 @@ def run(res, tier):
 
 
 def replay(path):
+    r = apiprobe.replay(path)
+    if r is not None:
+        return r
     return conc.replay('C01', path)
